@@ -859,6 +859,45 @@ func uuidV8(c *vf.Ctx, V [][16]byte) {
 				return fmt.Sprintf("UUIDv8{Variant:%x}.SetData(%x); String() without a Marshal call in between = %q, want %q (panic=%v %s %s)", vr, data, txt, guuid.UUID(v).String(), p2, m2, w2)
 			})
 		}
+		// the same on a value that already holds ANOTHER version-8 UUID (parsed from text, decoded from bytes, or set
+		// and formatted before): SetData replaces the payload wherever the type keeps it
+		{
+			o := v
+			for i := range o {
+				o[i] ^= 0xFF
+			}
+			o[6] = 0x80 | o[6]&0x0F
+			o[8] = 0x80 | o[8]&0x3F
+			for how := 0; how < 3; how++ {
+				var h uuid_v8.UUIDv8
+				var txt string
+				var hm []byte
+				var herr error
+				p2, m2, w2 := vf.Try(func() {
+					switch how {
+					case 0:
+						herr = h.FromString(guuid.UUID(o).String())
+					case 1:
+						_, herr = h.Unmarshal(o[:])
+					case 2:
+						h.Variant = o[8] >> 4
+						h.SetData(o[:])
+						_ = h.String()
+					}
+					if herr != nil {
+						return
+					}
+					h.Variant = vr
+					h.SetData(data[:])
+					txt = h.String()
+					hm, herr = h.Marshal()
+				})
+				l.Check("C13/uuid_v8/history/SetData-on-a-value-that-held-another-uuid/String-and-Marshal-equal-those-of-a-fresh-value", !p2 && herr == nil && strings.EqualFold(txt, guuid.UUID(v).String()) && bytes.Equal(hm, v[:]), func() string {
+					return fmt.Sprintf("UUIDv8 holding %s (%s), then Variant=%x SetData(%x): String() = %q Marshal() = %x err=%v, want %q / %x (panic=%v %s %s)",
+						guuid.UUID(o), [...]string{"FromString", "Unmarshal", "SetData+String"}[how], vr, data, txt, hm, herr, guuid.UUID(v).String(), v, p2, m2, w2)
+				})
+			}
+		}
 		l.Check("C13/uuid_v8/SetData-Marshal/equals-reference-and-parses-back", !pan && err == nil && bytes.Equal(m, v[:]) && bytes.Equal(back.GetData(), data[:]) && back.Variant == vr, func() string {
 			return fmt.Sprintf("UUIDv8{Variant:%x}.SetData(%x): Marshal = %x want %x; parsed back Data=%x Variant=%x err=%v panic=%v %s %s", vr, data, m, v, back.GetData(), back.Variant, err, pan, msg, where)
 		})
